@@ -114,7 +114,11 @@ Landmarks == {
   Lm(<<>>, <<1>>, <<0,0,0,0,0,0,1,1,9,2,0,9,2,8,9,5,5,0,7,8,1,2,5>>, <<>>, <<>>),    \* 1 + 2^-23
   Lm(<<>>, <<1,2,3,4,5,6,7,8,9,0,1,2,3,4,5,6,7,8,9,0>>, <<1,2,3,4,5>>, <<>>, <<>>),
   Lm(<<>>, <<>>, <<0,0,0,0,0,0,0,0,0,0,0,0,0,0,0,0,0,0,0,0,0,0,0,0,1>>, <<>>, <<2,5>>),
-  Lm(<<>>, <<1,0,0,0,0,0,0,0,0,0,0,0,0,0,0,0,0,0,0,0,0,0,0,0,0>>, <<>>, <<45>>, <<2,4>>) }
+  Lm(<<>>, <<1,0,0,0,0,0,0,0,0,0,0,0,0,0,0,0,0,0,0,0,0,0,0,0,0>>, <<>>, <<45>>, <<2,4>>),
+  \* literals longer than any fixed conversion buffer (63, 64, 65 and 80 characters)
+  Lm(<<>>, <<1>> \o [i \in 1..62 |-> 0], <<>>, <<>>, <<>>), Lm(<<>>, <<1>> \o [i \in 1..63 |-> 0], <<>>, <<>>, <<>>),
+  Lm(<<>>, <<1>> \o [i \in 1..64 |-> 0], <<>>, <<>>, <<>>), Lm(<<>>, <<7>> \o [i \in 1..79 |-> (i * 3) % 10], <<>>, <<>>, <<>>),
+  Lm(<<>>, <<0>>, [i \in 1..62 |-> 0] \o <<2,5>>, <<>>, <<7,0>>), Lm(<<>>, <<1,2>>, [i \in 1..58 |-> (i * 7) % 10], <<45>>, <<5>>) }
 InitLandmark == grp = "m" /\ \E m \in Landmarks, sg \in Signs : x = [m EXCEPT !.sg = IF m.sg = <<>> THEN sg ELSE m.sg]
 
 (* i: decimal integer literals around the limits of the four integer types *)
